@@ -382,7 +382,7 @@ func packedDigits(pa Path, comp, x *Term) bool {
 // W26: the card-format predicate reached from PutCard.
 func RuleW26(r *Report, p *Program) {
 	r.Rule("W26", "a card number is accepted as Wiegand-26 only if it has exactly eight decimal digits: facility code 0..255 followed by a five-digit number 0..65535", 1)
-	r.Rule("W26f", "with an empty format list every card number is accepted; an accepted number matches at least one listed format", 1)
+	r.Rule("W26f", "with an empty format list every card number is accepted; an accepted number matches at least one listed format; a number is refused only after every listed format was consulted and none of them is 'any'", 1)
 	l, _ := NewLayoutEngine(p)
 	a, err := NewAPI(p, l)
 	if err != nil {
@@ -468,6 +468,28 @@ func RuleW26(r *Report, p *Program) {
 			continue
 		}
 		if !res {
+			// rejected only for these reasons: a card is refused only after every listed format has been consulted
+			// and none accepted - the whole list was looked at, and no element of it is the 'any' format
+			hi := int64(-1)
+			if hasLen && len(ln) > 0 && ln[len(ln)-1].Hi <= 16 {
+				hi = ln[len(ln)-1].Hi
+			}
+			if hi < 0 {
+				badF = "a card is rejected although the format list (of unbounded length on this path) has not been consulted to its end: [" + cut(pa.State.Describe(), 160) + "]"
+				continue
+			}
+			for k := int64(0); k < hi; k++ {
+				v, seen := pa.State.Ints[fmt.Sprintf("formats[%d]", k)]
+				if !seen {
+					v, seen = pa.State.Ints[fmt.Sprintf("elem(formats)@%d", k+1)]
+				}
+				switch {
+				case !seen:
+					badF = fmt.Sprintf("a card is rejected without format #%d of the list having been consulted: [%s]", k, cut(pa.State.Describe(), 160))
+				case !v.Intersect(IntervalSet{{0, 0}}).Empty():
+					badF = fmt.Sprintf("a card is rejected although format #%d of the list may be 'any': [%s]", k, cut(pa.State.Describe(), 160))
+				}
+			}
 			continue
 		}
 		// which format accepted? some element of the list is known to be it (in whatever order the code examines
